@@ -1,4 +1,5 @@
 """C20 - every command resolves options and the store location the same way"""
+import os
 import datetime
 import io
 import json
@@ -8,7 +9,7 @@ import sys
 from jugverif import core
 
 LEVEL = 'proof'
-THEOREMS = ['Jug.C20.precedence', 'Jug.C20.table_absent_none', 'Jug.C20.precedence_all', 'Jug.C20.common_options_uniform',
+THEOREMS = ['Jug.C20.store_location', 'Jug.C20.precedence', 'Jug.C20.table_absent_none', 'Jug.C20.precedence_all', 'Jug.C20.common_options_uniform',
             'Jug.C20.argv_shape', 'Jug.C20.expand_default_template', 'Jug.C20.expand_literal']
 
 
@@ -312,12 +313,159 @@ def check(run):
             if a != list(seen.values())[0]:
                 run.corr_disagreements += 1
                 run.obligation('correspondence model=code (jugdir expansion)', False, 'template=%r jugfile=%r model=%r code=%r' % (tmpl, jf, a, seen))
+    store_family(run, drv, rng, date, quick)
     run.counts['subcommands_seen'] = len(subs_seen)
     run.counts['shapes'] = shapes
     if drv is not None:
         if run.corr_disagreements == 0:
             run.obligation('correspondence model=code on %d parse() calls' % run.corr_programs, True)
         drv.close()
+
+
+PROJECT = """import sys
+sys.path.insert(0, %(harness)r)
+import jug
+%(override)s
+from jug import TaskGenerator
+@TaskGenerator
+def f(x):
+    return x + 1
+@TaskGenerator
+def g(a, b):
+    return [a, b]
+a = f(1)
+b = f(2)
+c = g(a, b)
+"""
+
+
+def find_stores(cwd):
+    """directories below cwd that hold jug results (two-hex-digit subdirectories with files)"""
+    found = {}
+    for root, dirs, files in os.walk(cwd):
+        n = 0
+        for d in dirs:
+            if len(d) == 2 and all(ch in '0123456789abcdef' for ch in d):
+                n += len(os.listdir(os.path.join(root, d)))
+        if n or 'locks' in dirs or 'tempfiles' in dirs:
+            found[os.path.relpath(root, cwd)] = n
+        dirs[:] = [d for d in dirs if not (len(d) == 2 and all(ch in '0123456789abcdef' for ch in d)) and d not in ('locks', 'tempfiles', 'packs')]
+    return found
+
+
+def store_case(cfg):
+    """run every store-using subcommand of one project as a real process; returns observations"""
+    from jugverif.loadercheck import jug_cli
+    from jugverif import core as _core
+    cwd = cfg['cwd']
+    os.makedirs(os.path.join(cwd, os.path.dirname(cfg['jugfile']) or '.'), exist_ok=True)
+    ov = ('jug.set_jugdir(%r)' % cfg['override']) if cfg['override'] else ''
+    with open(os.path.join(cwd, cfg['jugfile']), 'w') as f:
+        f.write(PROJECT % {'harness': os.path.join(_core.VERIF, 'harness'), 'override': ov})
+    if cfg['ini'] is not None:
+        os.makedirs(os.path.join(cwd, '.config'), exist_ok=True)
+        with open(os.path.join(cwd, '.config', 'jugrc'), 'w') as f:
+            f.write('[main]\njugdir = %s\n' % cfg['ini'])
+    common = (['--jugdir', cfg['cli']] if cfg['cli'] is not None else [])
+    obs = {'steps': []}
+
+    def cli(sub, *extra):
+        r = jug_cli([sub] + common + list(extra) + [cfg['jugfile']], cwd)
+        obs['steps'].append((sub, r.returncode, r.stdout[-300:]))
+        return r
+    r = cli('execute')
+    obs['after_execute'] = find_stores(cwd)
+    E = cfg['expected']
+    if E is None or not os.path.isdir(os.path.join(cwd, E)):
+        return obs
+    obs['check_rc'] = cli('check').returncode
+    obs['sleep_until_rc'] = 0
+    if obs['check_rc'] == 0:        # otherwise it would (rightly, from its point of view) wait for ever
+        import subprocess
+        try:
+            obs['sleep_until_rc'] = jug_cli(['sleep-until'] + common + [cfg['jugfile']], cwd, timeout=30).returncode
+        except subprocess.TimeoutExpired:
+            obs['sleep_until_rc'] = 'no return within 30 s'
+    st = cli('status')
+    obs['status_out'] = st.stdout
+    cnt = cli('count')
+    obs['count_out'] = cnt.stdout
+    # plant a stray result and a stale lock in the expected store
+    from jug.backends.file_store import file_store
+    fs = file_store(os.path.join(cwd, E))
+    stray = b'ffstraystraystraystraystraystraystray00'
+    fs.dump('stray', stray)
+    fs.getlock(b'eelocklocklocklocklocklocklocklocklock0').get()
+    fs.close()
+    cli('cleanup', '--locks-only')
+    obs['locks_left'] = len(os.listdir(os.path.join(cwd, E, 'locks'))) if os.path.isdir(os.path.join(cwd, E, 'locks')) else 0
+    cli('cleanup')
+    obs['stray_left'] = file_store(os.path.join(cwd, E)).can_load(stray)
+    obs['results_before_invalidate'] = find_stores(cwd).get(E, 0)
+    cli('invalidate', '--target', 'f')
+    obs['results_after_invalidate'] = find_stores(cwd).get(E, 0)
+    obs['stores_at_end'] = find_stores(cwd)
+    return obs
+
+
+def store_family(run, drv, rng, date, quick):
+    """all commands of one project must operate on the same store (real processes, real directories)"""
+    from concurrent.futures import ThreadPoolExecutor
+    scratch = core.scratch_dir()
+    cfgs = []
+    base = [dict(cli=None, ini=None, override=None), dict(cli='mystore', ini=None, override=None), dict(cli=None, ini='%(jugfile)s.fromrc', override=None),
+            dict(cli='cli-%(jugfile)s-d', ini='rc.store', override=None), dict(cli=None, ini=None, override='chosen.by.jugfile'), dict(cli='viacli', ini=None, override='chosen2'),
+            dict(cli=None, ini='%(date)s.rc', override='sub/chosen3')]
+    for i in range(0 if quick else 12):
+        t = gen_template(rng, False)
+        if t.startswith('-') or '/' in t or t in ('dict_store',) or t.startswith('redis:') or not t.strip():
+            continue
+        base.append(dict(cli=rng.choice([None, t]), ini=rng.choice([None, t + '.rc']), override=rng.choice([None, None, 'ov%d' % i])))
+    for i, b in enumerate(base):
+        jf = ['jugfile.py', 'proj.py', 'dir/j.py'][i % 3]
+        tmpl = b['cli'] if b['cli'] is not None else (b['ini'] if b['ini'] is not None else '%(jugfile)s.jugdata')
+        exp = None
+        if drv is not None:
+            exp = drv.ask({'op': 'storefor', 'template': tmpl, 'jugfile': jf, 'date': date, 'override': b['override']})
+        else:
+            exp = b['override'] or (tmpl % {'jugfile': jf[:-3], 'date': date})
+        cfgs.append(dict(b, jugfile=jf, cwd=os.path.join(scratch, 'p%d' % i), expected=exp, template=tmpl))
+    try:
+        with ThreadPoolExecutor(8) as ex:
+            results = list(ex.map(store_case, cfgs))
+        for cfg, obs in zip(cfgs, results):
+            rp = {'kind': 'store', 'cfg': {k: cfg[k] for k in ('cli', 'ini', 'override', 'jugfile')}}
+            desc = 'project %s (--jugdir %r, jugrc jugdir %r, jugfile calls set_jugdir(%r))' % (cfg['jugfile'], cfg['cli'], cfg['ini'], cfg['override'])
+            run.case(('store', json.dumps(rp, sort_keys=True)), nontrivial=True)
+            run.count('store_projects')
+            E = cfg['expected']
+            ae = {os.path.normpath(k): v for k, v in obs['after_execute'].items() if v}
+            if drv is not None:
+                run.corr_programs += 1
+                if list(ae) != [os.path.normpath(E)] or ae[os.path.normpath(E)] != 3:
+                    run.corr_disagreements += 1
+                    run.obligation('correspondence model=code (store location)', False, '%s: execute put its results in %s, model says %s; steps %s' % (desc, ae, E, obs['steps'][:1]))
+            if list(ae) != [os.path.normpath(E)] or 'check_rc' not in obs:
+                run.fail('store-location:execute', '%s: `jug execute` stored its results in %s, expected exactly 3 in %r' % (desc, ae, E), rp)
+                continue
+            if obs['check_rc'] != 0:
+                run.fail('store-differs:check', '%s: after a complete `jug execute`, `jug check` exits %s: it looks at a different store' % (desc, obs['check_rc']), rp)
+            if obs['sleep_until_rc'] != 0:
+                run.fail('store-differs:sleep-until', '%s: after a complete `jug execute`, `jug sleep-until` exits %s' % (desc, obs['sleep_until_rc']), rp)
+            if obs['locks_left'] != 0:
+                run.fail('store-differs:cleanup-locks', '%s: `jug cleanup --locks-only` leaves %d lock(s) in the store execute used' % (desc, obs['locks_left']), rp)
+            if obs['stray_left']:
+                run.fail('store-differs:cleanup', '%s: `jug cleanup` leaves a stray result in the store execute used' % desc, rp)
+            if not (obs['results_before_invalidate'] == 3 and obs['results_after_invalidate'] == 0):
+                run.fail('store-differs:invalidate', '%s: `jug invalidate --target f` leaves %d of %d results in the store execute used' % (desc, obs['results_after_invalidate'], obs['results_before_invalidate']), rp)
+            tot = [l.split() for l in obs['status_out'].split('\n') if l.strip().endswith('Total')]
+            if not tot or tot[0][:5] != ['0', '0', '0', '3', '0']:
+                run.fail('store-differs:status', '%s: `jug status` after a complete run prints totals %r (failed, waiting, ready, complete, active)' % (desc, tot[:1]), rp)
+            extra = [k for k in obs['stores_at_end'] if os.path.normpath(k) != os.path.normpath(E)]
+            if extra:
+                run.fail('second-store', '%s: the commands created/used other stores besides %r: %s' % (desc, E, extra), rp)
+    finally:
+        core.rm_rf(scratch)
 
 
 def replay(path):
